@@ -1,0 +1,25 @@
+//! Verification hooks (cargo feature `verif`, off by default).
+//!
+//! Additive only: with the feature disabled nothing of this is compiled.
+
+use std::{
+    path::Path,
+    sync::{Arc, RwLock},
+};
+
+type Callback = Arc<dyn Fn(&Path, &Path) + Send + Sync>;
+
+static PRE_PUBLISH: RwLock<Option<Callback>> = RwLock::new(None);
+
+/// Install (or remove) a callback invoked by `LocalBackend::write_bytes` after the
+/// temporary file has been written completely and before it is renamed to its final name.
+pub fn set_pre_publish(callback: Option<Callback>) {
+    *PRE_PUBLISH.write().unwrap() = callback;
+}
+
+pub(crate) fn pre_publish(tmp: &Path, dest: &Path) {
+    let cb = PRE_PUBLISH.read().unwrap().clone();
+    if let Some(cb) = cb {
+        cb(tmp, dest);
+    }
+}
